@@ -39,6 +39,38 @@ type Rec struct {
 }
 
 // literal renders a tagged JSON value as a GraphQL literal for argument type d.
+// literalVars renders t like literal, except that every element of every list is a variable of its own
+// ([$e0, $e1], {inner: [$e2]}); vars receives their values. n counts the variables.
+func literalVars(t tj.T, d argzoo.TypeDesc, vars map[string]interface{}, n *int) string {
+	for d.K == "ptr" || d.K == "opt" {
+		d = *d.Of
+	}
+	switch t.K {
+	case "a":
+		var parts []string
+		for _, e := range *t.A {
+			name := fmt.Sprintf("e%d", *n)
+			*n++
+			vars[name] = e.To()
+			parts = append(parts, "$"+name)
+		}
+		return "[" + strings.Join(parts, ", ") + "]"
+	case "o":
+		var parts []string
+		for _, k := range t.Keys() {
+			fd := argzoo.TypeDesc{K: "string"}
+			if d.K == "obj" {
+				if x, ok := d.Fields[k]; ok {
+					fd = x
+				}
+			}
+			parts = append(parts, k+": "+literalVars((*t.M)[k], fd, vars, n))
+		}
+		return "{" + strings.Join(parts, ", ") + "}"
+	}
+	return literal(t, d)
+}
+
 func literal(t tj.T, d argzoo.TypeDesc) string {
 	for d.K == "ptr" || d.K == "opt" {
 		d = *d.Of
@@ -220,6 +252,19 @@ func Main(args []string) error {
 			emit("default", fmt.Sprintf("query Q($v: T = %s) { r: %s(x: $v) }", lit, c.F), map[string]interface{}{})
 			emit("default_null", fmt.Sprintf("query Q($v: T = %s) { r: %s(x: $v) }", lit, c.F), map[string]interface{}{"v": nil})
 		}
+		// a list literal whose elements are variables (also inside an object literal)
+		if !absent && !hasNullOutsideLists(c.J) {
+			vars := map[string]interface{}{}
+			n := 0
+			text := literalVars(c.J, d, vars, &n)
+			if n > 0 {
+				var decl []string
+				for i := 0; i < n; i++ {
+					decl = append(decl, fmt.Sprintf("$e%d: T", i))
+				}
+				emit("list_element_variables", fmt.Sprintf("query Q(%s) { r: %s(x: %s) }", strings.Join(decl, ", "), c.F, text), vars)
+			}
+		}
 		// the same through a named fragment (its arguments are parsed apart from the operation's) and an inline one
 		for _, fq := range [][2]string{{"frag", "{ ...F } fragment F on Query { r: %[1]s(x: %[2]s) }"}, {"inline", "{ ... on Query { r: %[1]s(x: %[2]s) } }"}} {
 			if absent {
@@ -244,6 +289,21 @@ func Main(args []string) error {
 		}
 	}
 	return w.Close()
+}
+
+// hasNullOutsideLists: a null that is not a list element cannot be written as a literal (list elements travel by variable here)
+func hasNullOutsideLists(t tj.T) bool {
+	switch t.K {
+	case "n":
+		return true
+	case "o":
+		for _, v := range *t.M {
+			if hasNullOutsideLists(v) {
+				return true
+			}
+		}
+	}
+	return false
 }
 
 func tstr(k, s string) tj.T { return tj.T{K: k, S: &s} }
